@@ -1,6 +1,15 @@
 #!/bin/bash
-# Build the framework from files on disk only (offline).
+# Build the framework from files on disk only (offline) and warm the fact cache.
 set -euo pipefail
 cd "$(dirname "$0")"
 export CARGO_NET_OFFLINE=true
-echo "setup: placeholder (engines not built yet)"
+(cd driver && cargo build --release --offline 2>&1 | tail -2)
+(cd srcfacts && cargo build --release --offline 2>&1 | tail -2)
+# first extraction compiles the dependency graph once under the driver (≈1 min); later checks reuse it
+python3 - <<'PY'
+import sys
+sys.path.insert(0, "lib")
+import core
+print("facts:", core.extract())
+print("posctl:", core.extract_posctl())
+PY
